@@ -89,6 +89,19 @@ theorem stop_requested_not_busy :
     statusChain tol maxIter maxNP k ε np oot true ≠ .Busy := by
   unfold statusChain; simp only []; split_ifs <;> simp
 
+/-- With the stop flag visible, the chain returns `Interrupted` unless one of the higher-priority
+    conditions holds — and then it returns exactly that condition's status, *with its condition*. -/
+theorem stop_gives_interrupted_or_natural :
+    statusChain tol maxIter maxNP k ε np oot true = .Interrupted ∨
+    (statusChain tol maxIter maxNP k ε np oot true = .Converged ∧ ε ≤ effTol tol) ∨
+    (statusChain tol maxIter maxNP k ε np oot true = .MaxTime ∧ oot = true) ∨
+    (statusChain tol maxIter maxNP k ε np oot true = .MaxIter ∧ k = maxIter) ∨
+    (statusChain tol maxIter maxNP k ε np oot true = .NotFinite ∧ RealLike.isFinite ε = false) ∨
+    (statusChain tol maxIter maxNP k ε np oot true = .NoProgress ∧ np > maxNP) := by
+  unfold statusChain effTol
+  simp only []
+  split_ifs <;> simp_all
+
 /-- Reaching `max_iter` always ends the loop. -/
 theorem max_iter_not_busy : statusChain tol maxIter maxNP maxIter ε np oot intr ≠ .Busy := by
   unfold statusChain; simp only []; split_ifs <;> simp_all
